@@ -7,6 +7,7 @@ EXTENDS QWNet, Json, IOUtils
 Rec == ndJsonDeserialize(IOEnv.TRACE)
 TrOthers == 1..(Len(Rec[1].stakes) - 1)
 TrStake  == [i \in 0..(Len(Rec[1].stakes) - 1) |-> Rec[1].stakes[i + 1]]
+TrDown   == IF "down" \in DOMAIN Rec[1] THEN {Rec[1].down[i] : i \in 1..Len(Rec[1].down)} ELSE {}
 VARIABLES l, viol, nsteps, ndiv, div,
           racked     \* observed ground truth: [batch -> peers whose ACK answered the frame carrying it]
 tvars == <<vars, l, viol, nsteps, ndiv, div, racked>>
@@ -40,5 +41,5 @@ TNext ==
 TSpec == TInit /\ [][TNext]_tvars
 Accepted == TLCGet("stats").diameter >= 1
 Report == l <= Len(Rec) \/ PrintT(<<"REPORT", ToJson([ndiv |-> ndiv, div |-> div, steps |-> nsteps, viol |-> viol, consumed |-> l - 1, records |-> Len(Rec)])>>)
-SpecInvs == ReleasedWithQuorumOfAcks /\ ReleasedInOrder /\ PairingAligned
+SpecInvs == ReleasedWithQuorumOfAcks /\ ReleasedInOrder /\ PairingAligned /\ UnreachableQuorumBlocks
 ====
